@@ -310,13 +310,23 @@ theorem poll_sites : Gen.pollAtTop = [("cmplEvaluateNodeExpression", true), ("cm
     code, not `pollReenterOld` -/
 theorem poll_keeps_labels : Gen.stmtPollKeepsLabels = true := by decide
 
-/-- the model's `haltHere` / `catching` is the code: each of the three polls hands the received function to
+/-- the model's `haltHere` / `catching` is the code: each of the four polls (statement, expression, empty `for`
+    body, `pollInterrupt` of the built-ins' loops) hands the received function to
     `rt.interrupt`; `interrupt` is `defer func(){ if c := recover(); c != nil { rt.halting, rt.haltValue = true, c;
     panic(c) } }(); function()` (so rt.halting/haltValue say that, and with what, the function panicked); and the
     deferred function of tryCatchEvaluate is `if c := recover(); c != nil { if rt.halting { if samePanic(c,
     rt.haltValue) { panic(c) } … } … }`: that very value is passed on before anything else is done with it -/
-theorem halt_not_recovered : Gen.interruptPolls = 3 ∧ Gen.pollsRunInterrupt = true ∧
+theorem halt_not_recovered : Gen.interruptPolls = 4 ∧ Gen.pollsRunInterrupt = true ∧
     Gen.interruptNotesPanic = true ∧ Gen.tryLetsHaltPass = true := by decide
+
+/-- the loops of built-ins whose trip count is a length the script chooses (up to 2^32−1 iterations without a
+    statement being evaluated) poll the channel themselves, once in 65536 iterations (fix a37105a): the
+    thirteen Array.prototype methods that walk an array-like without allocating, and the shrinking of `length` -/
+theorem native_loops_poll : Gen.nativeLoopPolls =
+    [("arrayDefineOwnProperty", 1), ("arraySortQuickPartition", 1), ("builtinArrayEvery", 1), ("builtinArrayFilter", 1),
+     ("builtinArrayForEach", 1), ("builtinArrayIndexOf", 1), ("builtinArrayLastIndexOf", 1), ("builtinArrayReduce", 2),
+     ("builtinArrayReduceRight", 2), ("builtinArrayReverse", 1), ("builtinArrayShift", 1), ("builtinArraySome", 1),
+     ("builtinArraySplice", 3), ("builtinArrayUnshift", 1)] := by decide
 
 /-- Otto.Copy is `out := &Otto{runtime: o.runtime.clone()}; out.runtime.otto = out; return out`: the
     model's `Handle.copy` (no field of the template's handle is carried over, the back pointer is the copy) -/
